@@ -125,6 +125,23 @@ def run(ctx):
             ctx.ob("E4.loop", "BlsSignatureCore::core_aggregate_verify/pairs.push((hash, pk)) per entry", ok, "the per-entry pair (%s) is built only after !is_identity of the very key it contains" % e["mode"], where=where(e["fn"], e["bb"]))
     # scalar import: zero => none
     R.check_scalar_zero_guard(ctx, "E4.zero", P)
+    # partial signing: the share's scalar goes through the zero-refusing core_sign, or is itself tested for zero
+    # (a zero-valued share with a non-zero identifier is not the all-zero container)
+    fps = ctx.need_fn("E4.zero-share", "BlsSignatureCore::core_partial_sign")
+    if fps is not None:
+        evp = evaluate(fps)
+        cs = [s_ for _, s_ in sorted(evp.sites.items()) if s_.callee[0] == "BlsSignatureCore::core_sign"]
+        if cs:
+            a0 = strip_sites(cs[0].args[0])
+            okp = any(x.op == "call" and B.cname(x) == "Share::as_field_element" for x in subterms(a0))
+            ctx.ob("E4.zero-share", fps.key, okp, "the share's scalar (as_field_element) is signed through core_sign, which refuses the zero scalar", where=where(fps, cs[0].bb))
+        else:
+            muls = [(bb, s_) for bb, s_ in sorted(evp.sites.items()) if s_.callee[0] == "Mul::mul" and any(x.op == "call" and B.cname(x) == "Share::as_field_element" for x in subterms(s_.args[1]) | subterms(s_.args[0]))]
+            okp = bool(muls)
+            for bb, s_ in muls:
+                lits = G.path_literals(evp, bb, P, checks_only=True)
+                okp = okp and any(not pol and a[0] == "atom" and a[1] == "is_zero" and any(x.op == "call" and B.cname(x) == "Share::as_field_element" for x in subterms(a[2])) for a, pol in lits)
+            ctx.ob("E4.zero-share", fps.key, okp, "the product hash_to_point * scalar is computed only after !is_zero of the share's *scalar* (not of the share container, whose identifier byte is never zero)", where=where(fps))
     # all byte importers of scalars go through these helpers
     imps = call_sites(P, lambda c, t: c.get("name") == "from_repr" and c.get("trait") == "PrimeField")
     for fn, bb, t in imps:
